@@ -108,3 +108,8 @@ chk("C21", "E1 program explorer + in-process record executor",
     "For every program of the depth<=2 space __frisky_graph__() and __frisky_records_chunks__() either decline or produce records whose keys are consistent, dependencies produced and declared, acyclic, covering every __frisky_output_keys__() key, and whose execution (TaskRefs resolved in nested containers) gives the same block values as __dask_graph__(); groups of three collections sharing subtrees walked with one shared `seen` set must form a complete graph with the same values.",
     "Trusted: dask graph block values as reference (its own defects are judged by C01/C04); generic GraphRecordsLayer only (no native extension).",
     "DESIGN.md §4 C21")
+chk("C23", "E1 program explorer + E4 order histories",
+    "bounded exhaustive exploration of programs derived from random sources, with the first computed realization as the reference model, plus recompute/rebuild/reseed/pickle checks and all compute orders of parent and child",
+    "For every generator kind x distribution (incl. array-valued parameters, choice, permutation) x shape/chunking the array is computed once; every depth<=2 derived program must equal the NumPy op on that realization; recomputing, rebuilding with the same seed (same name and values), pickling, and reseeding (different values) are checked on every source, and parent/child are recomputed in both orders twice.",
+    "Trusted: the first realization as reference; synchronous scheduler.",
+    "DESIGN.md §4 C23")
